@@ -254,7 +254,17 @@ Theorem sfp_paths n :
     search_for_paths lit re_search mt aa tm sp o n bp lc seen = Ok r -> Forall (HP lc) (fst r).
 Proof.
   induction n as [i v|i kvs IH|i els IH|i els IH] using node_ind'; intros Hp bp lc seen r HT E.
-  - simpl in E. inversion E; constructor.
+  - (* the lone-scalar document: reported by the root path *)
+    simpl in E. unfold scalar_root in E.
+    assert (Hh : HP lc (mkhit (root_slash sp bp) lc HValue)).
+    { split; [exists []; rewrite app_nil_r; reflexivity|]. cbn [h_loc h_path]. intros Hok.
+      rewrite (HT Hok). destruct lc as [|x rest].
+      - cbn [pb_bp]. unfold root_slash, build_path. destruct sp; reflexivity.
+      - cbn [pb_bp]. unfold root_slash.
+        rewrite (build_path_nonempty (x :: rest)); [reflexivity | discriminate | exact Hok]. }
+    destruct (negb (is_none_leaf (NLeaf i v)) && o_values o); [|inversion E; constructor].
+    destruct (term_matches _ _ _ _) as [[|]| |]; simpl in E; try discriminate; inversion E; subst; simpl;
+      [constructor; [exact Hh | constructor] | constructor].
   - (* mapping *)
     simpl in E.
     match type of E with bind (loop ?b _ _ _) _ = _ => set (body := b) in * end.
